@@ -114,6 +114,11 @@ func narrowingSites(c *Ctx, fns []*ssa.Function) []convSite {
 					x, y := widenBase(bo.X), widenBase(bo.Y)
 					op := bo.Op
 					if !g.val {
+						// NaN falsifies every ordered comparison: the false edge of `f < lo` does not
+						// establish `f >= lo` for a float unless NaN is excluded separately
+						if sr.isFloat && !nanExcluded(b, src) {
+							continue
+						}
 						op = negOp(op)
 					}
 					// normalise: src OP bound
@@ -379,6 +384,9 @@ func boundsOn(b *ssa.BasicBlock, v ssa.Value) (lower, upper bool) {
 		x, y := widenBase(bo.X), widenBase(bo.Y)
 		op := bo.Op
 		if !g.val {
+			if isFloatType(src.Type()) && !nanExcluded(b, src) {
+				continue // see narrowingSites: the negated ordered comparison says nothing about NaN
+			}
 			op = negOp(op)
 		}
 		if sameVal(y, src) {
@@ -401,4 +409,32 @@ func boundsOn(b *ssa.BasicBlock, v ssa.Value) (lower, upper bool) {
 func constFloat(k *ssa.Const) float64 {
 	f, _ := constant.Float64Val(constant.ToFloat(k.Value))
 	return f
+}
+
+func isFloatType(t types.Type) bool {
+	bt, ok := t.Underlying().(*types.Basic)
+	return ok && bt.Info()&types.IsFloat != 0
+}
+
+// nanExcluded: on every path to b the float v is known not to be NaN: a dominating v == v (true edge),
+// v != v (false edge) or math.IsNaN(v) (false edge).
+func nanExcluded(b *ssa.BasicBlock, v ssa.Value) bool {
+	for _, g := range blockGuards(b) {
+		g = normGuard(g)
+		switch t := g.cond.(type) {
+		case *ssa.BinOp:
+			if sameVal(widenBase(t.X), v) && sameVal(widenBase(t.Y), v) {
+				if (t.Op == token.EQL && g.val) || (t.Op == token.NEQ && !g.val) {
+					return true
+				}
+			}
+		case *ssa.Call:
+			if f := t.Call.StaticCallee(); f != nil && f.Pkg != nil && f.Pkg.Pkg.Path() == "math" && f.Name() == "IsNaN" && !g.val {
+				if len(t.Call.Args) == 1 && sameVal(widenBase(t.Call.Args[0]), v) {
+					return true
+				}
+			}
+		}
+	}
+	return false
 }
